@@ -1,12 +1,14 @@
 #!/venv/bin/python
-"""Re-run detection for seeded patches (after strengthening) and update meta.json. usage: seed_redetect.py [id ...]"""
+"""Re-run detection for seeded patches (after strengthening) and update meta.json. usage: seed_redetect.py [-j N] [id ...]"""
 import json, sys
+from concurrent.futures import ProcessPoolExecutor
 from pathlib import Path
 sys.path.insert(0, str(Path(__file__).resolve().parent)); sys.path.insert(0, str(Path(__file__).resolve().parent.parent))
 import seed_eval
 V = Path(__file__).resolve().parent.parent
-ids = sys.argv[1:] or sorted(p.name for p in (V / "seeded").iterdir())
-for sid in ids:
+
+
+def one(sid: str):
     p = V / "seeded" / sid
     det = seed_eval.detect(p / "patch.diff")
     m = json.loads((p / "meta.json").read_text())
@@ -14,4 +16,18 @@ for sid in ids:
     m["caught_by"] = sorted(k for k in det if not k.startswith("<"))
     (p / "meta.json").write_text(json.dumps(m, indent=1))
     own = m["breaks_property"]
-    print(sid, own, "->", m["caught_by"], "OWN" if own in m["caught_by"] else "**MISSED**", [v[0][:100] for k, v in det.items() if k == own or k.startswith("<")])
+    return f"{sid} {own} -> {m['caught_by']} {'OWN' if own in m['caught_by'] else '**MISSED**'} {[v[0][:100] for k, v in det.items() if k == own or k.startswith('<')]}"
+
+
+if __name__ == "__main__":
+    args = sys.argv[1:]
+    jobs = 6
+    if args[:1] == ["-j"]:
+        jobs = int(args[1]); args = args[2:]
+    ids = args or sorted(p.name for p in (V / "seeded").iterdir())
+    if len(ids) == 1:
+        print(one(ids[0]))
+    else:
+        with ProcessPoolExecutor(max_workers=jobs) as ex:
+            for line in ex.map(one, ids):
+                print(line, flush=True)
